@@ -14,11 +14,8 @@ use crate::core::exec::yield_now;
 use crate::core::exec::Exec;
 use crate::core::tape::Xo;
 use identity_did::CoreDID;
-use identity_eddsa_verifier::EdDSAJwsVerifier;
 use identity_jose::jwk::Jwk;
 use identity_jose::jws::JwsAlgorithm;
-use identity_jose::jws::JwsVerifier;
-use identity_jose::jws::VerificationInput;
 use identity_storage::JwkMemStore;
 use identity_storage::JwkStorage;
 use identity_storage::KeyId;
@@ -48,6 +45,9 @@ pub struct KeyGen {
   /// when set, a secret is sometimes handed out again (a KMS with deterministic derivation): two methods may then
   /// carry the same key material
   pub repeat_secrets: bool,
+  /// when set, the key-id seam declines and the store's own (production) id generation runs; ids then differ from
+  /// one execution to the next and are written down under aliases (ctx::scrub)
+  pub production_ids: bool,
   pub issued_ids: Vec<String>,
   pub issued_secrets: Vec<[u8; 32]>,
 }
@@ -58,6 +58,7 @@ impl KeyGen {
       rng: Xo::new(seed),
       counter: 0,
       repeat_secrets: false,
+      production_ids: false,
       issued_ids: Vec::new(),
       issued_secrets: Vec::new(),
     }
@@ -115,7 +116,14 @@ pub fn install_hooks(keygen: Rc<RefCell<KeyGen>>, yield_num: u32, yield_den: u32
       }
       y
     }),
-    next_key_id: Box::new(move || Some(kg1.borrow_mut().key_id())),
+    next_key_id: Box::new(move || {
+      let mut kg = kg1.borrow_mut();
+      if kg.production_ids {
+        None
+      } else {
+        Some(kg.key_id())
+      }
+    }),
     next_secret: Box::new(move || Some(kg2.borrow_mut().secret())),
   });
 }
@@ -147,17 +155,13 @@ fn jwk_from_json(v: serde_json::Value) -> Jwk {
   serde_json::from_value(v).expect("harness JWK deserialises")
 }
 
+/// Ed25519 verification by the harness (iota-crypto directly, own strict base64url), not through the library's verifier.
 pub fn verify_ed25519(public_jwk: &Jwk, data: &[u8], sig: &[u8]) -> bool {
-  EdDSAJwsVerifier::default()
-    .verify(
-      VerificationInput {
-        alg: JwsAlgorithm::EdDSA,
-        signing_input: data.to_vec().into_boxed_slice(),
-        decoded_signature: sig.to_vec().into_boxed_slice(),
-      },
-      public_jwk,
-    )
-    .is_ok()
+  let x = serde_json::to_value(public_jwk).ok().and_then(|v| v.get("x").and_then(|x| x.as_str().map(str::to_owned)));
+  let Some(pk_bytes) = x.and_then(|x| crate::engines::world::b64url_decode(&x)) else { return false };
+  let (Ok(pk_arr), Ok(sig_arr)) = (<[u8; 32]>::try_from(pk_bytes.as_slice()), <[u8; 64]>::try_from(sig)) else { return false };
+  let Ok(pk) = crypto::signatures::ed25519::PublicKey::try_from_bytes(pk_arr) else { return false };
+  pk.verify(&crypto::signatures::ed25519::Signature::from_bytes(sig_arr), data)
 }
 
 // ------------------------------------------------------------------------------------------------------------------
@@ -174,6 +178,8 @@ enum InsertKind {
   X25519,
   /// a private key of the store's other key type (BLS12381G2) carrying a JWS algorithm it cannot be used with
   BlsKeyWithJwsAlg,
+  /// the declared key type (`kty`) is not OKP although the members are those of an Ed25519 key
+  KtyDisagreesWithMembers,
 }
 
 #[derive(Clone, Debug)]
@@ -235,9 +241,28 @@ struct Shared {
   harness_keygen: RefCell<Xo>,
   /// private JWK and public x of the last valid insert
   last_inserted: RefCell<Option<(serde_json::Value, String)>>,
+  /// key ids come from the store's own generator in this run (not from the seam)
+  production_ids: bool,
+  aliases: RefCell<BTreeMap<String, String>>,
 }
 
 impl Shared {
+  /// A key id produced by production code is not decided by the tape: write it down under an alias.
+  fn alias(&self, id: &str) {
+    if !self.production_ids {
+      return;
+    }
+    let mut a = self.aliases.borrow_mut();
+    if a.contains_key(id) {
+      return;
+    }
+    let alias = format!("K{:03}", a.len() + 1);
+    ctx::scrub(id, alias.clone());
+    if id.len() > 1 {
+      ctx::scrub(&id[..id.len() - 1], format!("{alias}~"));
+    }
+    a.insert(id.to_owned(), alias);
+  }
   fn tick(&self) -> u64 {
     let v = self.seq.get() + 1;
     self.seq.set(v);
@@ -286,6 +311,7 @@ async fn run_op(sh: &Shared, client: usize, op: Op) {
       match sh.jwk.generate(KeyType::new(key_type), alg).await {
         Ok(out) => {
           let id = out.key_id.as_str().to_owned();
+          sh.alias(&id);
           object = Some(format!("key:{id}"));
           // contract clauses on the output
           let jwk = &out.jwk;
@@ -387,6 +413,9 @@ async fn run_op(sh: &Shared, client: usize, op: Op) {
         InsertKind::X25519 => {
           priv_json["crv"] = "X25519".into();
         }
+        InsertKind::KtyDisagreesWithMembers => {
+          priv_json["kty"] = ["RSA", "EC", "oct"][ctx::choose(3)].into();
+        }
         InsertKind::BlsKeyWithJwsAlg => {
           let jws_alg = ["EdDSA", "ES256"][ctx::choose(2)];
           priv_json = serde_json::json!({"kty":"EC","crv":"BLS12381G2","alg": jws_alg,
@@ -397,6 +426,7 @@ async fn run_op(sh: &Shared, client: usize, op: Op) {
       match sh.jwk.insert(jwk).await {
         Ok(id) => {
           let id = id.as_str().to_owned();
+          sh.alias(&id);
           object = Some(format!("key:{id}"));
           if !valid {
             ctx::violation(
@@ -722,7 +752,8 @@ fn gen_op(n_slots: usize, n_digests: usize, invalid_bias: u32) -> Op {
     }
     1 => {
       if ctx::chance(invalid_bias, 6) {
-        Op::Insert(match ctx::choose(6) {
+        Op::Insert(match ctx::choose(7) {
+          6 => InsertKind::KtyDisagreesWithMembers,
           5 => InsertKind::BlsKeyWithJwsAlg,
           0 => InsertKind::PublicOnly,
           1 => InsertKind::NoAlg,
@@ -872,6 +903,12 @@ impl Engine for KsEngine {
     let invalid_bias = ctx::choose(4) as u32;
     let keygen_seed = ((ctx::draw_u32() as u64) << 32) | ctx::draw_u32() as u64;
     let keygen = Rc::new(RefCell::new(KeyGen::new(keygen_seed)));
+    // one run in six leaves key-id generation to the store itself (production code instead of the seam)
+    let production_ids = ctx::chance(1, 6);
+    if production_ids {
+      keygen.borrow_mut().production_ids = true;
+      ctx::stat("probe.production_key_ids");
+    }
     install_hooks(keygen.clone(), yn, yd);
     set_hook_yields(true);
 
@@ -886,6 +923,8 @@ impl Engine for KsEngine {
       signatures: RefCell::new(Vec::new()),
       harness_keygen: RefCell::new(Xo::new(keygen_seed ^ 0xABCD)),
       last_inserted: RefCell::new(None),
+      production_ids,
+      aliases: RefCell::new(BTreeMap::new()),
     };
 
     // ---- scripts ----
